@@ -253,7 +253,15 @@ def run_process(exe, cases_lines, K, sched, keep=1, timeout=240, wd=25):
         lines.append('case %d' % k)
         lines += c
     env = dict(RUN_ENV, PARSEC_MCA_mca_sched=sched, PARSEC_MCA_runtime_keep_highest_priority_task=str(keep))
-    return pv.sh([exe, str(K), str(wd)], input='\n'.join(lines) + '\n', timeout=timeout, env=env)
+    for attempt in range(3):
+        rc, out, err = pv.sh([exe, str(K), str(wd)], input='\n'.join(lines) + '\n', timeout=timeout, env=env)
+        # MPI_Init of a singleton occasionally fails when many start at once (session directory): not the code under test
+        if rc != 0 and not out.strip() and 'MPI_Init' in err:
+            import time
+            time.sleep(1 + attempt)
+            continue
+        break
+    return rc, out, err
 
 
 def run_parallel(jobs, maxpar=5):
